@@ -18,7 +18,8 @@ EXPLANATION = (
     "value array is written only through the paired update/scale helpers that also forward to the LDL engine, except "
     "the reviewed regularisation restore; P->map.P, A->map.A; QDLDL indexes through AtoPAPt; the LDL back ends (QDLDL, faer) agree on what update_values / scale_values / offset_values do to their own copy; (R6) equilibration "
     "happens once, at construction."
-    " (R10) in every update form the bound test, the stored element and the equilibration entries use the same index (row/column of that entry for matrices); tuple forms without stores delegate unchanged; (R1, sdp) is_chordal_decomposed is true exactly when decomposition data exists.")
+    " (R10) in every update form the bound test, the stored element and the equilibration entries use the same index (row/column of that entry for matrices); tuple forms without stores delegate unchanged; (R1, sdp) is_chordal_decomposed is true exactly when decomposition data exists."
+    " R2 also: every returning path of the matrix form passes through the sparsity comparison; R4 also: the cached norms are initialised and recomputed with the same (infinity) norm.")
 ASSUMPTIONS = ['rustc MIR construction and trait resolution are correct', 'algebra primitives have their documented meaning']
 
 MUTATORS = {'copy_from_slice', 'lrscale', 'lscale', 'rscale', 'scale', 'hadamard', 'copy_from', 'fill', 'set', 'index_mut'}
@@ -150,6 +151,14 @@ def no_write_before_reject(rep, F, tag):
                 if ce:
                     a = [canon(f.sym_operand(x)) for x in ce[0].args]
                     R.check(a == ['self', 'arg2'], 'sparsity-args' + tag, 'check_equal_sparsity(%s)' % a, f.loc(ce[0].sp))
+                # ... on *every* accepting path: no return other than the propagated pattern error may avoid the comparison
+                for val, ret, ev, tr in leaves:
+                    if ret[0] != 's':
+                        continue
+                    passed = any(e[0] == 'call' and e[1] == 'check_equal_sparsity' for e in ev)
+                    R.check(passed, 'sparsity-on-every-path' + tag,
+                            'the matrix form returns %s on a path (%s) that never compares the sparsity pattern: a matrix of another shape / pattern is accepted' % (
+                                str(ret[1])[:50], {k[:40]: v for k, v in val.items()}), f.loc())
         # the pattern comparison itself
         ce = F.one(name='check_equal_sparsity', adt='CscMatrix')
         atoms = set()
@@ -238,6 +247,29 @@ def caches_and_mirrors(rep, F, E, G, tag):
             g = F.one(name=nm, adt='DefaultKKTSystem')
             cs = [c for c in g.calls if c.callee.name == nm]
             R.check(len(cs) == 1 and canon(g.sym_operand(cs[0].args[1])) == 'arg2', 'kktsystem-forward|%s%s' % (nm, tag), 'DefaultKKTSystem::%s does not forward its matrix' % nm, g.loc())
+
+        # the cached norms are filled at construction and lazily recomputed after an update: both must be the same norm (the residual
+        # normalisers are documented with the infinity norm; a 2-norm in one of the two places changes r_prim / r_dual by up to sqrt(n))
+        nw = F.one(name='new', adt='DefaultProblemData')
+        kinds = {}
+        for bi, si, st in nw.assignments():
+            rv = st['rv']
+            if rv['k'] == 'agg' and rv['ak']['a'] == 'adt' and last_seg(strip_generics(rv['ak']['adt'])) == 'DefaultProblemData':
+                for fld in ('normq', 'normb'):
+                    v = canon(nw.sym_operand(rv['ops'][rv['ak']['fields'].index(fld)]))
+                    m = re.search(r'\b(norm_inf|norm_one|norm)(_scaled)?\(', v)
+                    kinds[(fld, 'init')] = m.group(1) if m else v[:40]
+        for fld, getter in (('normq', 'get_normq'), ('normb', 'get_normb')):
+            g = F.one(name=getter, adt='DefaultProblemData')
+            for val, ret, ev, tr in Walker(g).leaves():
+                for e in ev:
+                    if e[0] == 'store' and str(e[1]) == 'self.' + fld:
+                        m = re.search(r'\b(norm_inf|norm_one|norm)(_scaled)?\(', str(e[2]))
+                        kinds[(fld, 'recompute')] = m.group(1) if m else str(e[2])[:40]
+        for fld in ('normq', 'normb'):
+            a, b = kinds.get((fld, 'init')), kinds.get((fld, 'recompute'))
+            R.check(a == 'norm_inf' and b == 'norm_inf', 'cache-same-norm|%s%s' % (fld, tag),
+                    'the cached %s is initialised with %s and recomputed with %s: both must be the infinity norm of the residual normalisers' % (fld, a, b), nw.loc())
 
     R.guard(body)
 
